@@ -52,6 +52,19 @@ def check(run):
     _dispatch(run, prog, W)
 
 
+def _wrapper_fields(prog, W):
+    """(prediction-function field, feature-names field) of the Wrapper base class: the fields its
+    constructor fills from the parameters `prediction_function` and `feature_names`."""
+    init = prog.summarise(W, "__init__")
+    out = []
+    for pname in ("prediction_function", "feature_names"):
+        fs = [f for f, t in init.fields.items() if t == ("param", pname)]
+        if len(fs) != 1:
+            raise AnalysisError(f"Wrapper.__init__ does not store its {pname} argument in exactly one field: {fs}")
+        out.append(fs[0])
+    return tuple(out)
+
+
 def _npapi(run, prog, W):
     mods = {c.module.name for c in prog.subclasses(W)}
     refs = npapi.numpy_refs(prog, mods)
@@ -82,8 +95,11 @@ def _shape(run, prog, W):
     p = ("param", [a.arg for a in fn.args.args][1])
     label = ("field0", "default_label")
     rets = [(ev, ctx) for ev, ctx in walk(s.events) if isinstance(ev, (ir.Return, ir.Raise))]
+    delegated = {ev.ret for ev, _ in walk(s.events, structural=True) if isinstance(ev, ir.Inlined)}
     one_seen = many_seen = raise_seen = False
     for ev, ctx in rets:
+        if isinstance(ev, ir.Return) and not ctx.inl and ev.value in delegated:
+            continue            # `return helper(...)`: the helper's own returns are examined
         gtxt = " & ".join(ir.show_nl(g) for g in ctx.guards) or "always"
         in_handler = [h for t, h in ctx.tries if h != "body"]
         if isinstance(ev, ir.Raise):
@@ -144,7 +160,7 @@ def _shape(run, prog, W):
 
 
 def _inputs(run, prog, W):
-    names = ("field0", "_feature_names")
+    names = ("field0", _wrapper_fields(prog, W)[1])
     has = ("cmp", "is not", names, ("const", None))
     # 1d
     s = prog.summarise(W, "convert_1d_input_to_arr")
@@ -214,13 +230,14 @@ def _inputs(run, prog, W):
 
 
 def _wiring(run, prog, cls):
+    from .boolalg import excluded
     s = prog.summarise(cls, "__call__")
     fq = f"{cls.name}.__call__"
     run.analysed_fn(fq)
     _, fn = prog.find_method(cls, "__call__")
     x = ("param", [a.arg for a in fn.args.args][1])
     isd = ("fn", "isinstance", (x, ("global", "builtins.dict")))
-    pf = "self._prediction_function"
+    pf = "self." + _wrapper_fields(prog, prog.find_class("Wrapper"))[0]
     inl = [(ev, ctx) for ev, ctx in walk(s.events, structural=True) if isinstance(ev, ir.Inlined)]
     calls = [(ev, ctx) for ev, ctx in walk(s.events) if isinstance(ev, ir.Call) and ev.callee == pf]
 
@@ -235,34 +252,43 @@ def _wiring(run, prog, cls):
         if arg == conv_ret:
             return True
         return arg[0] == "res" and arg[2] in ("torch.tensor", "torch.as_tensor", "torch.from_numpy") and arg[3] and arg[3][0] == conv_ret
-    for mode, conv_in, guard in (("dict", "convert_1d_input_to_arr", isd), ("list", "convert_2d_input_to_arr", ir.negate(isd))):
-        ins = [ev for ev, ctx in inl if ev.qual.endswith(conv_in) and guard in ctx.guards]
-        mcs = [ev for ev, ctx in calls if guard in ctx.guards]
-        outs = [(ev, ctx) for ev, ctx in inl if ev.qual.endswith("convert_arr_output_to_dict") and guard in ctx.guards]
-        ok = len(ins) == 1 and len(mcs) == 1 and len(outs) == 1
-        why = f"{len(ins)} input conversions, {len(mcs)} model calls, {len(outs)} output conversions"
+    # the two input forms are told apart by `isinstance(x, dict)`; every event is looked at under each outcome of
+    # that test (events whose guards exclude the outcome do not belong to the form, values are read under it)
+    for mode, conv_in, other_in, fact in (("dict", "convert_1d_input_to_arr", "convert_2d_input_to_arr", isd),
+                                          ("list", "convert_2d_input_to_arr", "convert_1d_input_to_arr", ir.negate(isd))):
+        def live(ctx):
+            return not excluded(tuple(ctx.guards), fact)
+
+        def A(t):
+            return ir.assume(t, [fact])
+        ins = [ev for ev, ctx in inl if ev.qual.endswith(conv_in) and live(ctx)]
+        wrong = [ev for ev, ctx in inl if ev.qual.endswith(other_in) and live(ctx)]
+        mcs = [ev for ev, ctx in calls if live(ctx)]
+        outs = [(ev, ctx) for ev, ctx in inl if ev.qual.endswith("convert_arr_output_to_dict") and live(ctx)]
+        ok = len(ins) == 1 and len(mcs) == 1 and len(outs) == 1 and not wrong
+        why = f"{len(ins)} input conversions, {len(mcs)} model calls, {len(outs)} output conversions" + \
+            (f", {len(wrong)} calls of the other input converter" if wrong else "")
         if ok:
-            in_arg = list(ins[0].params.values())[0] if ins[0].params else None
-            ok = in_arg == x and mcs[0].args and feeds(mcs[0].args[0], ins[0].ret)
+            in_arg = A(list(ins[0].params.values())[0]) if ins[0].params else None
+            ok = in_arg == x and bool(mcs[0].args) and feeds(A(mcs[0].args[0]), A(ins[0].ret))
             why = "the model is not called on the converted input"
         if ok:
             oev, octx = outs[0]
-            oarg = list(oev.params.values())[0] if oev.params else None
+            oarg = A(list(oev.params.values())[0]) if oev.params else None
             if mode == "dict":
-                ok = oarg is not None and raw(oarg) == mcs[0].res and not [l for l in octx.loops]
+                ok = oarg is not None and raw(oarg) == A(mcs[0].res) and not [l for l in octx.loops]
                 why = f"the output converter receives {ir.show_nl(oarg)[:120] if oarg else None}, not the model output"
             else:
                 lp = [l for l in octx.loops]
                 out = None
                 if len(lp) == 1 and oarg is not None and oarg[0] == "sub" and oarg[2] == ("elem", lp[0].lid):
                     out = oarg[1]
-                ok = out is not None and raw(out) == mcs[0].res and lp[0].iter == ("fn", "range", (("fn", "len", (out,)),))
+                ok = out is not None and raw(out) == A(mcs[0].res) and A(lp[0].iter) == ("fn", "range", (("fn", "len", (out,)),))
                 why = (f"rows are taken from {ir.show_nl(out)[:120]}, which is not the unmodified batch output" if out is not None
-                       and raw(out) != mcs[0].res else "the output is not converted row by row over range(len(output))")
+                       and raw(out) != A(mcs[0].res) else "the output is not converted row by row over range(len(output))")
                 if ok:
-                    r = [ev for ev, c in walk(s.events) if isinstance(ev, ir.Return) and guard in c.guards and not c.inl]
-                    ok = bool(r) and r[-1].value[0] == "comp" and r[-1].value[1] == "list" and r[-1].value[2] == lp[0].lid \
-                        and r[-1].value[5] == oev.ret and not r[-1].value[6]
+                    rv = A(s.ret)
+                    ok = rv[0] == "comp" and rv[1] == "list" and rv[2] == lp[0].lid and A(rv[5]) == A(oev.ret) and not rv[6]
                     why = "the returned list is not the list of converted rows in order"
         run.check(ok, "WIRING", f"{cls.name}.{mode}", f"{s.path}:{s.fn.lineno}", fq, f"{mode} path: {why if not ok else 'ok'}",
                   f"{mode} path must be {conv_in} -> one model call -> convert_arr_output_to_dict"
@@ -274,18 +300,32 @@ def _river(run, prog):
     cls = prog.find_class("RiverWrapper")
     run.need(cls is not None, "anchor class RiverWrapper vanished")
     ri = prog.summarise(cls, "__init__")
-    sl = ri.fields.get("_seen_labels")
+    # the per-instance label memory: the one container the constructor creates empty
+    sets = [f for f, t in ri.fields.items() if t[0] == "new" and t[2] in ("set", "list", "dict") and not t[3]]
+    slf = sets[0] if len(sets) == 1 else None
+    sl = ri.fields.get(slf) if slf else None
     run.check(sl is not None and sl[0] == "new" and sl[2] == "set" and not sl[3], "RIVER", "labels-per-instance",
-              f"{ri.path}:{ri.fn.lineno}", "RiverWrapper.__init__", f"_seen_labels = {ir.show_nl(sl) if sl else 'not set in __init__'}",
+              f"{ri.path}:{ri.fn.lineno}", "RiverWrapper.__init__", f"seen labels = {ir.show_nl(sl) if sl else 'not set in __init__'}",
               "every RiverWrapper needs its own, initially empty, set of seen labels created in __init__ (a class-level set is "
-              "shared by all wrappers of the process)", "self._seen_labels = set() per instance")
-    e = prog.summarise(cls, "_extend_dict")
-    fq = "RiverWrapper._extend_dict"
+              "shared by all wrappers of the process)", f"self.{slf} = set() per instance")
+    if slf is None:
+        return
+    # the single-output converter: the one helper method of the class that __call__ applies to the model output
+    sc = prog.summarise(cls, "__call__")
+    helpers = []
+    for ev, ctx in walk(sc.events, structural=True):
+        if isinstance(ev, ir.Inlined) and ev.cls is not None and ev.fn.name in cls.methods and not ctx.inl and \
+                ev.fn.name not in helpers:
+            helpers.append(ev.fn.name)
+    run.need(len(helpers) == 1, f"RiverWrapper.__call__ does not convert outputs through one helper method: {helpers}")
+    hname = helpers[0]
+    e = prog.summarise(cls, hname)
+    fq = f"RiverWrapper.{hname}"
     run.analysed_fn(fq)
-    _, fn = prog.find_method(cls, "_extend_dict")
+    _, fn = prog.find_method(cls, hname)
     y = ("param", [a.arg for a in fn.args.args][1])
     label = ("field0", "default_label")
-    seen = ("field0", "_seen_labels")
+    seen = ("field0", slf)
     isd = ("fn", "isinstance", (y, ("global", "builtins.dict")))
     rets = [(ev, ctx) for ev, ctx in walk(e.events) if isinstance(ev, ir.Return)]
     kinds = set()
@@ -299,7 +339,7 @@ def _river(run, prog):
         elif handler and "ValueError" in handler[0].exc and v[0] == "comp" and v[1] == "dict" and v[3] == seen and \
                 const_value(v[5]) == 0:
             idx = {id(x): i for i, (x, _) in enumerate(walk(e.events))}
-            adds = [x for x, c in walk(e.events) if isinstance(x, ir.Call) and x.callee == "self._seen_labels" and
+            adds = [x for x, c in walk(e.events) if isinstance(x, ir.Call) and x.callee == f"self.{slf}" and
                     x.method == "add" and x.args == (y,)]
             hot = [x for x, c in walk(e.events) if isinstance(x, ir.SubStore) and x.cont == v and x.key == y and
                    const_value(x.value) == 1]
@@ -311,7 +351,7 @@ def _river(run, prog):
                       "and its own entry set to 1", "seen.add(label); {l: 0 for l in seen}; out[label] = 1")
             kinds.add("onehot")
     run.check(kinds == {"dict", "float", "onehot"}, "RIVER", "forms", f"{e.path}:{e.fn.lineno}", fq, f"forms {sorted(kinds)}",
-              f"_extend_dict must pass dicts through, wrap floats under the default label and one-hot strings; found "
+              f"the output converter must pass dicts through, wrap floats under the default label and one-hot strings; found "
               f"{sorted(kinds)}", "dict / float / one-hot")
     # list path == per-row single path
     s = prog.summarise(cls, "__call__")
